@@ -137,7 +137,10 @@ def scratch_check(mid, checks, tier="quick"):
     try:
         for c in checks:
             t0 = time.time()
-            rc, out = sh("./check %s --tier %s" % (c, tier), cwd=SC_V, timeout=7200)
+            # "C09@default+zz32" restricts the build configurations
+            cc, _, cf = c.partition("@")
+            extra = (" --configs " + cf.replace("+", ",")) if cf else ""
+            rc, out = sh("./check %s --tier %s%s" % (cc, tier, extra), cwd=SC_V, timeout=7200)
             viol = [l for l in out.split("\n") if l.startswith("VIOLATION") or "violation summary" in l or l.startswith("INCONCLUSIVE")]
             first = [l for l in out.split("\n") if l.strip().startswith("violation config")][:2]
             results[c] = dict(exit=rc, detected=(rc == 1), wall_s=round(time.time() - t0, 1), lines=(viol[:3] + first)[:5], scratch=True)
